@@ -50,8 +50,11 @@ class C13Pairs(Scenario):
             return st
         if r < 84:
             return {"op": "ops", "order": rng.choice(("ab", "ba")), "poke": rng.below(cfg["universe"])}
-        if r < 90:
+        if r < 88:
             return {"op": "derive", "side": rng.choice(("a", "b")), "which": rng.choice(("intersection", "union", "clear"))}
+        if r < 92 and cfg["kind"] != "cms":
+            # same element count, other content: cleared and refilled with as many OTHER keys (also on-disk operands)
+            return {"op": "refill", "side": rng.choice(("a", "b")), "shift": rng.between(1, 5)}
         return {"op": "foreign", "what": rng.choice(FOREIGN), "recv": rng.choice(("a", "b"))}
 
     # ------------------------------------------------------------------ construction
@@ -247,6 +250,21 @@ class C13Pairs(Scenario):
                     tgt.add(key, step["n"])
                 self.out[side][step["k"]] = 1
             return {"r": "ok"}
+        if op == "refill":
+            tgt = self.a if step["side"] == "a" else self.b
+            old = sorted(self.out[step["side"]])
+            if not old or tgt.elements_added != len(old):
+                return "skip"
+            tgt.clear()
+            self.out[step["side"]] = {}
+            for k in old:
+                k2 = (k + step["shift"]) % (cfg["universe"] + 6)
+                while k2 in self.out[step["side"]]:
+                    k2 += 1
+                tgt.add(seams.key_of(k2)) if kind == "bloom" else tgt.add(seams.key_of(k2), 1)
+                self.out[step["side"]][k2] = 1
+            ctx.fault("refilled_same_count")
+            return {"r": "ok", "count": tgt.elements_added}
         if op == "ops":
             return self.pair_ops(step["order"], step.get("poke"))
         if op == "derive":
